@@ -7296,6 +7296,24 @@ fn eval_break(env: &mut Env, expr_value_is_used: bool) {
     // longer inside the innermost loop.
     while let Some((expr_state, expr)) = env.current_frame_mut().exprs_to_eval.pop() {
         match &expr.expr_ {
+            Expression_::While(_, _) | Expression_::ForIn(_, _, _)
+                if matches!(expr_state, ExpressionState::NotEvaluated) =>
+            {
+                // A loop that hasn't started is a later statement in
+                // a block we're leaving, not the loop we're inside.
+            }
+            Expression_::ForIn(_, _, _)
+                if matches!(
+                    expr_state,
+                    ExpressionState::PartiallyEvaluated(BlockState::WillRunBlock)
+                ) =>
+            {
+                // We're still evaluating the value to iterate over,
+                // so this loop hasn't started either. Drop its index
+                // and keep unwinding.
+                env.pop_value()
+                    .expect("Index used by `for` should be present");
+            }
             Expression_::While(_, _) => {
                 // We're exiting the loop body early, so pop its
                 // bindings block here.
@@ -7351,10 +7369,29 @@ fn eval_continue(env: &mut Env) {
     // Pop all the currently evaluating expressions until we are back
     // at the loop.
     while let Some((expr_state, expr)) = env.current_frame_mut().exprs_to_eval.pop() {
-        if matches!(
+        let is_loop = matches!(
             expr.expr_,
             Expression_::While(_, _) | Expression_::ForIn(_, _, _)
-        ) {
+        );
+        // A loop that hasn't started is a later statement in a block
+        // we're leaving, not the loop we're inside.
+        if is_loop && matches!(expr_state, ExpressionState::NotEvaluated) {
+            continue;
+        }
+        // Likewise a `for` whose iterated value is still being
+        // evaluated: drop its index and keep unwinding.
+        if matches!(expr.expr_, Expression_::ForIn(_, _, _))
+            && matches!(
+                expr_state,
+                ExpressionState::PartiallyEvaluated(BlockState::WillRunBlock)
+            )
+        {
+            env.pop_value()
+                .expect("Index used by `for` should be present");
+            continue;
+        }
+
+        if is_loop {
             // TODO: this needs to clean up any items pushed to the value stack.
             // E.g. in `1 + continue`.
 
